@@ -151,15 +151,29 @@ def report(prop, tier, res, t0, extra_cov=None, families=None):
     return 1 if viol else 0
 
 
+def run_lemmas(work):
+    """TLC checks the laws of the functional modules themselves (Lemmas.tla) over bounded domains."""
+    d = work.sub("lemmas")
+    C.copy_specs(d)
+    shutil.copy(os.path.join(C.SPEC, "cfg", "Lemmas.cfg"), d)
+    r = C.tlc(d, "Lemmas.tla", "Lemmas.cfg", workers=4, timeout=1200, heap="4g")
+    shutil.rmtree(d, ignore_errors=True)
+    if not r.ok:
+        raise C.Inconclusive("a law of the functional specification modules failed (specification-level):\n" + r.out[-2500:])
+    return {"module": "Lemmas", "domain_elements": r.distinct, "generated": r.generated}
+
+
 def check(prop, tier):
     t0 = time.time()
     work = C.Work(prop)
     try:
+        lem = run_lemmas(work)
         binary = build(work)
         res = run_families(work, binary, PROPS[prop]["families"], tier)
         if res["cases"] == 0:
             raise C.Inconclusive("no case evaluated")
-        return report(prop, tier, res, t0, families=PROPS[prop]["families"])
+        res["states"] += lem["domain_elements"]
+        return report(prop, tier, res, t0, extra_cov={"specification_laws": lem}, families=PROPS[prop]["families"])
     finally:
         work.close()
 
